@@ -45,6 +45,9 @@ REAL_VS_STUB = {
     "stub": ["raw file device + namespace (SimRaw/SimFS/SimPath)", "fcntl lock table (SimLockMech)", "clock (virtual)",
              "OS processes (baton-passed threads) in the live variant"],
 }
+FAULT_PROBES = {"crash_inside_block_header": "crash_in_header", "crash_inside_key": "crash_in_key", "crash_inside_value": "crash_in_value",
+                "crash_on_block_boundary": "crash_on_boundary", "second_crash_in_recovery_append": "second_crash", "live_writer_killed": "live_writer_killed",
+                "live_torn_write": "live_torn_write"}
 PROBES = ["crash_in_header", "crash_in_key", "crash_in_value", "crash_on_boundary", "crash_before_first_byte",
           "torn_header_announces_beyond_eof", "recovery_append_done", "second_crash", "stale_handle_recovery",
           "direct_raw_write_of_value", "molecule_library_recovery", "live_writer_killed", "live_survivor_session_after_kill", "live_torn_write"]
